@@ -11,6 +11,7 @@
 -/
 import Lace.Basic.Machine
 import Lace.Basic.Fmt
+import Lace.Basic.Tables
 namespace Lace.ISA
 
 /-- Decoded instruction: fields have exactly the width the ISA gives them. -/
@@ -112,7 +113,8 @@ def getc (w : World) : Option (Word × Char × World) :=
     if b < 128 then some (BitVec.ofNat 16 b, Char.ofNat b, w')
     else some (0xFFFD#16, Char.ofNat 0xFFFD, w')
 
-/-- The REG trap's table in `--minimal` mode. -/
+/-- The REG trap's table in `--minimal` mode (the normal mode's table is `Tables.regTable`:
+hex, signed, unsigned and character columns, as its header says). -/
 def regDump (m : Machine) : List Char :=
   let regLine (i : Nat) (h : i < 8) : List Char :=
     ['R', Char.ofNat (48 + i), ' ', 'x'] ++ hex4 (m.reg[i]) ++ ['\n']
@@ -152,7 +154,7 @@ def execTrap (minimal : Bool) (vec : BitVec 8) (m : Machine) (w : World) : StepR
   | 0x24 => .ok m (puts minimal w (packedStringAt m (m.getReg 0)))            -- PUTSP
   | 0x25 => .ok (m.setPC 0xFFFF#16) (putRaw w haltBanner)                     -- HALT
   | 0x26 => .ok m (puts minimal w (decI16 (m.getReg 0)))                      -- PUTN
-  | 0x27 => .ok m (puts minimal w (regDump m))                                -- REG
+  | 0x27 => .ok m (puts minimal w (if minimal then regDump m else Tables.regTable m))  -- REG
   | _    => .exit 0xEE w
 
 def exec (stackOn minimal : Bool) (i : Instr) (m : Machine) (w : World) : StepResult :=
